@@ -803,10 +803,12 @@ func (fc *fnCtx) sortedByLess(st *state, c *ssa.CallCommon, ins ssa.Instruction,
 				v := fc.load(st, b)
 				v.Ty = pt.Elem()
 				bind[fv.Name()] = v
+				bind[fmt.Sprintf("$free%d", k)] = v
 			case Val:
 				v := fc.load(st, fc.pointerAddr(b, pt.Elem()))
 				v.Ty = pt.Elem()
 				bind[fv.Name()] = v
+				bind[fmt.Sprintf("$free%d", k)] = v
 			}
 		}
 		return bind
